@@ -333,6 +333,11 @@ def c08(tier):
                   app=dict(actions=['close', 'send_text'], max_actions=2),
                   fault=dict(ops=['sendall'], kinds=['oserror'], max=1, skip={'sendall': 1})),
     ]
+    specs.append(life_spec('close-inside-unfinished-message', tags,
+                           'the server starts a fragmented message (FIN=0) that it never finishes and then sends its Close - first, or in reply to the '
+                           'application\'s close(): a Close frame may stand inside a fragmented message (RFC 6455 5.4), the handshake completes as usual',
+                           server=dict(kind='grammar', K=3, alphabet=['text', 'frag_open', 'close'], close_is_last=True),
+                           app=dict(actions=['close', 'send_text'], max_actions=1)))
     specs.append(life_spec('close-timeout-options', tags,
                            'both close directions with connect(close_timeout=...) drawn from {None, 0, 0.0 (documented: disabled), 30.0}: the server answers '
                            'without delay (no virtual time passes), so no value may cut the handshake short',
